@@ -297,7 +297,11 @@ def _contains(eng, m, args, fr, dty):
         return mkbool(False)
     if isinstance(x, Int):
         return Bool(z3.Or(*[y.e == x.e for y in a]))
-    return NotImplemented
+    if isinstance(x, (Vec, Slice)):
+        xs = items_of(eng, x, fr)
+        return Bool(z3.Or(*[items_eq(eng, items_of(eng, y, fr), xs) for y in a]))
+    from .models_last import struct_eq
+    return Bool(z3.Or(*[struct_eq(eng, y, x, fr) for y in a]))
 
 
 # ---- Box<[T;N]>::new_uninit / vec! lowering
@@ -848,6 +852,13 @@ def _from_iter(eng, m, args, fr, dty):
 def _from_utf8_lossy(eng, m, args, fr, dty):
     items = items_of(eng, args[0], fr)
     for b in items:
+        if hasattr(b, 'pre'):
+            if b.i >= 1000:
+                continue                   # a hex digit of a digest
+            c = b.conc()
+            if c is not None and c < 128:
+                continue
+            raise PathEnd('bound', 'digest bytes through from_utf8_lossy')
         if not eng.branch_bool(z3.ULT(b.e, 128)):
             raise PathEnd('bound', 'non-ASCII through from_utf8_lossy (model covers ASCII only)')
     return Enum('Cow', 'Borrowed', [as_slice(eng, args[0], fr)])
